@@ -326,6 +326,11 @@ def new_unit_verdicts(ctx, si):
                           {'text': dfn if isinstance(dfn, str) else u, 'new_unit': u, 'definition': dfn},
                           'a value: the definition evaluates over the SI reference extended by the new units registered before it',
                           {'definition over the extended reference': v.get('outcome'), 'package, %r' % u: impl_eval(u)})
+        elif v['verdict'] == 'not_a_word':
+            ctx.case('new-unit:' + u, None)
+            rep = ctx.model([{'op': 'c10.eval_ext', 'text': dfn}])[0] if isinstance(dfn, str) else {'definition': dfn}
+            ctx.violation('a new unit has a name that is not a word of the unit grammar ([a-zA-Z]+): no text denotes it',
+                          {'text': u, 'new_unit': u, 'definition': dfn}, {'as its definition': _plain(rep)}, impl_eval(u))
         # 'unsupported' (irrational magnitude, non-positive magnitude or fractional exponent): nothing to compare exactly; the
         # table obligation C10_tab_new_units_accepted does not hold and the run ends without a failing input
     ctx.extra.setdefault('coverage', {})['new_units'] = cov
@@ -426,8 +431,12 @@ def _run(ctx):
         if ctx.time_left() < 120:
             break
     # 4. malformed: fixed list (expected: UnitsParseError), token mutations of valid expressions (outcome class only)
-    for text in MALFORMED:
-        check_text(ctx, text, batch, 'malformed_fixed', expect='unitsParse')
+    # (a text of the list that has a value over the extended reference is a unit a maintainer has added, not a malformed text)
+    ext = ctx.model([{'op': 'c10.eval_ext', 'text': t} for t in MALFORMED])
+    for text, rep in zip(MALFORMED, ext):
+        if 'val' in rep:
+            ctx.count('malformed_fixed_now_a_unit')
+        check_text(ctx, text, batch, 'malformed_fixed', expect=None if 'val' in rep else 'unitsParse')
     for i in range(ctx.n(2500, 120000)):
         toks = mutate(rng, rng.choice(trees))
         if any(len(t) > 4000 for t in toks):
